@@ -297,7 +297,7 @@ pub fn run(tier: Tier, seed: u64, replay: Option<String>) -> i32 {
     let e = |m: &ModuleSet| eval(m);
     let run = GenericRun {
         gcfg: gen_cfg(),
-        n: tier.pick(1500, 30000),
+        n: tier.pick(4000, 40000),
         stream_len: 3000,
         salt: 12,
         shrink_budget: 300,
